@@ -575,16 +575,21 @@ def parse_globals(repo):
         return norm(_method_body(nc, sig, what))
     px = body(r"static\s+int32_t\s+parse_XTA\s*\(\s*ParserBuilder\s*\*\s*aParserBuilder\s*,\s*bool\s+newxta\s*,\s*xta_part_t\s+part\s*,\s*std::string\s+xpath\s*\)\s*\{",
               "static parse_XTA")
-    want_px = ("syntax = newxta ? syntax_t::NEW_GUIDING : syntax_t::OLD_GUIDING; setStartToken(part, newxta); ch = aParserBuilder; "
-               "tracker.setPath(ch, xpath); int res = 0; if (utap_parse()) { res = -1; } ch = NULL; return res;")
     pp = body(r"static\s+int32_t\s+parseProperty\s*\(\s*ParserBuilder\s*\*\s*aParserBuilder\s*,\s*const\s+std::string&\s*xpath\s*\)\s*\{",
               "static parseProperty")
-    want_pp = ("syntax = syntax_t::PROPERTY; setStartToken(S_PROPERTY, false); ch = aParserBuilder; tracker.setPath(ch, xpath); "
-               "return utap_parse() ? -1 : 0;")
-    if px != want_px:
-        raise TranslateError("parser.y: unrecognised static parse_XTA: %r" % px)
-    if pp != want_pp:
-        raise TranslateError("parser.y: unrecognised static parseProperty: %r" % pp)
+    # the statement that may follow tracker.setPath: initialisation of the parser's location variable (proposed fix C15-init-yylloc)
+    init_variants = ["", "yylloc.start = yylloc.end = tracker.position; ", "yylloc = position_t{tracker.position, tracker.position}; ",
+                     "yylloc = position_t(tracker.position, tracker.position); "]
+    yylloc_init = None
+    for k, iv in enumerate(init_variants):
+        want_px = ("syntax = newxta ? syntax_t::NEW_GUIDING : syntax_t::OLD_GUIDING; setStartToken(part, newxta); ch = aParserBuilder; "
+                   "tracker.setPath(ch, xpath); " + iv + "int res = 0; if (utap_parse()) { res = -1; } ch = NULL; return res;")
+        want_pp = ("syntax = syntax_t::PROPERTY; setStartToken(S_PROPERTY, false); ch = aParserBuilder; tracker.setPath(ch, xpath); " + iv +
+                   "return utap_parse() ? -1 : 0;")
+        if px == want_px and pp == want_pp:
+            yylloc_init = k > 0
+    if yylloc_init is None:
+        raise TranslateError("parser.y: unrecognised static parse_XTA / parseProperty: %r / %r" % (px, pp))
     pub = body(r"int32_t\s+parse_XTA\s*\(\s*const\s+char\s*\*\s*str\s*,\s*ParserBuilder\s*\*\s*builder\s*,\s*bool\s+newxta\s*,\s*xta_part_t\s+part\s*,\s*std::string\s+xpath\s*\)\s*\{",
                "parse_XTA(str, builder, newxta, part, xpath)")
     if pub != "utap__scan_string(str); int32_t res = parse_XTA(builder, newxta, part, xpath); utap__delete_buffer(YY_CURRENT_BUFFER); return res;":
@@ -640,14 +645,113 @@ def parse_globals(repo):
             accesses.append((cur, "types", "write"))
         for mm in re.finditer(r"\btypes\+\+|\btypes--|\(types\)", ln):
             accesses.append((cur, "types", "read"))
-    return {"parts": parts, "enum": enum, "missing_parts": missing, "accesses": accesses}
+    # 6. the productions that order the accesses: a list starts with a full transition (which writes rootTransId at its end),
+    #    the short form (which reads it) can only follow inside the same list; ArrayDecl2 (reads `types`) only under ArrayDecl
+    def split_grammar(g):
+        """rule name -> (body with actions kept, body with actions removed); actions are balanced-brace blocks"""
+        out_keep, out_strip, i, n, depth = [], [], 0, len(g), 0
+        while i < n:
+            c = g[i]
+            if c == "'" and depth == 0:
+                j = i + 3 if g[i + 1] == "\\" else i + 2
+                if j >= n or g[j] != "'":
+                    raise TranslateError("parser.y: unrecognised character literal near %r" % g[i:i + 8])
+                out_keep.append("'#'")
+                out_strip.append("'#'")
+                i = j + 1
+                continue
+            if c in "\"'" and depth > 0:
+                j = i + 1
+                while j < n and g[j] != c:
+                    j += 2 if g[j] == "\\" else 1
+                out_keep.append(g[i:j + 1].replace(";", " ").replace("{", " ").replace("}", " "))
+                i = j + 1
+                continue
+            if c == "{":
+                depth += 1
+            if depth > 0:
+                out_keep.append(" " if c == ";" and False else c)
+            else:
+                out_keep.append(c)
+                out_strip.append(c)
+            if c == "}":
+                depth -= 1
+                if depth == 0:
+                    out_strip.append(" ")
+            i += 1
+        return "".join(out_keep), "".join(out_strip)
+
+    keep, stripped = split_grammar(grammar[2:])
+    prods = {}
+    for m2 in re.finditer(r"([A-Za-z_]\w*)\s*:([^;]*);", stripped):
+        prods[m2.group(1)] = norm(m2.group(2))
+    # bodies with actions, cut at the same rule boundaries (a rule ends at the first ';' outside an action)
+    prods_act = {}
+    depth, cur, buf, name_re = 0, None, [], re.compile(r"([A-Za-z_]\w*)\s*:\s*$")
+    i = 0
+    text = keep
+    start = 0
+    while i < len(text):
+        c = text[i]
+        if c == "{":
+            depth += 1
+        elif c == "}":
+            depth -= 1
+        elif c == ";" and depth == 0:
+            seg = text[start:i]
+            mm = re.match(r"\s*([A-Za-z_]\w*)\s*:(.*)$", seg, re.S)
+            if mm:
+                prods_act[mm.group(1)] = mm.group(2)
+            start = i + 1
+        i += 1
+
+    def alts(name):
+        if name not in prods:
+            raise TranslateError("parser.y: production %s not found" % name)
+        return [norm(a) for a in prods[name].split("|")]
+
+    def occurrences(sym):
+        return sorted(name for name, b_ in prods.items() if re.search(r"\b%s\b" % sym, b_))
+
+    if alts("TransitionList") != ["Transition", "TransitionList '#' TransitionOpt"]:
+        raise TranslateError("parser.y: TransitionList is %r" % alts("TransitionList"))
+    if alts("OldTransitionList") != ["OldTransition", "OldTransitionList '#' OldTransitionOpt"]:
+        raise TranslateError("parser.y: OldTransitionList is %r" % alts("OldTransitionList"))
+    if occurrences("TransitionOpt") != ["TransitionList"] or occurrences("OldTransitionOpt") != ["OldTransitionList"]:
+        raise TranslateError("parser.y: TransitionOpt / OldTransitionOpt used outside their lists: %r %r"
+                             % (occurrences("TransitionOpt"), occurrences("OldTransitionOpt")))
+    if occurrences("ArrayDecl2") != ["ArrayDecl", "ArrayDecl2"]:
+        raise TranslateError("parser.y: ArrayDecl2 used outside ArrayDecl: %r" % occurrences("ArrayDecl2"))
+    if norm(prods_act.get("ArrayDecl", "")) != "{ types = 0; } ArrayDecl2":
+        raise TranslateError("parser.y: ArrayDecl is %r" % norm(prods_act.get("ArrayDecl", "")))
+    # the write of rootTransId is in the *last* action of each alternative of Transition / OldTransition
+    for name in ("Transition", "OldTransition"):
+        for alt in prods_act[name].split("|"):
+            acts = re.findall(r"\{([^{}]*)\}", alt)
+            if not acts or not re.search(r"strcpy\s*\(\s*rootTransId", acts[-1]):
+                raise TranslateError("parser.y: %s does not write rootTransId in its final action" % name)
+    # YYLLOC_DEFAULT and CALL
+    m2 = re.search(r"#define\s+YYLLOC_DEFAULT\(Current, Rhs, N\)(.*?)while \(0\)", src, re.S)
+    want_ll = ("do if (N) { (Current).start = YYRHSLOC (Rhs, 1).start; (Current).end = YYRHSLOC (Rhs, N).end; } else { (Current).start = "
+               "(Current).end = YYRHSLOC (Rhs, 0).end; }")
+    got_ll = m2 and norm(m2.group(1).replace("\\", " "))
+    if got_ll != want_ll:
+        raise TranslateError("parser.y: unrecognised YYLLOC_DEFAULT: %r" % got_ll)
+    cl = re.search(r"#define\s+CALL\(first,last,call\)\s+(.*)", nc)
+    want_call = "do { ch->set_position(first.start, last.end); try { ch->call; } catch (TypeException &te) { ch->handle_error(te); } } while (0)"
+    if not cl or norm(cl.group(1)) != want_call:
+        raise TranslateError("parser.y: unrecognised CALL macro: %r" % (cl and cl.group(1)))
+    return {"parts": parts, "enum": enum, "missing_parts": missing, "accesses": accesses, "yylloc_init": yylloc_init}
 
 
 def parse_globals_lean(info):
     out = ["/- GENERATED by translate/pos_tables.py from src/parser.y -- do not edit.",
            "   The per-call initialisation of parse_XTA / parseProperty was recognised statement by statement",
-           "   (syntax, setStartToken, ch, tracker.setPath, utap_parse); below are the tables the model needs. -/",
+           "   (syntax, setStartToken, ch, tracker.setPath, [yylloc], utap_parse); so were utap_lex, YYLLOC_DEFAULT, CALL and the",
+           "   list productions that order the accesses of rootTransId / types.  Below are the tables the model needs. -/",
            "namespace UtapModel.ParseGlobalsGen", "",
+           "/-- does parse_XTA / parseProperty set `yylloc` to the start of the block before `utap_parse()`? -/",
+           "def yyllocInit : Bool := %s" % ("true" if info["yylloc_init"] else "false"), "",
            "/-- setStartToken: part, start token for the new syntax, start token for the old syntax -/",
            "def startTokens : List (String × String × String) := ["]
     out.append(",\n".join("  (%s, %s, %s)" % (lean_str(a), lean_str(b), lean_str(c)) for a, b, c in info["parts"]))
